@@ -552,6 +552,33 @@ def c09b(F, R):
         R.bad("Position::new|count", f"expected exactly one Position::new site, found {n_pos}")
 
 
+@rule("C09", "C09.d.lexer-indexes-the-given-text", floor=1)
+def c09d(F, R):
+    """the text the lexer indexes (and whose offsets it reports) is exactly the text it was given: no length-changing transformation between the argument and the `source` buffer"""
+    newp = inherent_methods(F, LEXER).get("new")
+    if not newp:
+        raise Anchor("Lexer::new not found")
+    f = F.fn(newp)
+    st = [n for n in walk(f["hir"]["value"], pats=False) if n.get("k") == "Struct" and (n.get("res") or "").endswith("lexer::Lexer")]
+    if not st:
+        raise Anchor("Lexer::new does not build a Lexer literal")
+    params = [x.get("name") for x in f["hir"]["params"]]
+    allowed = {"into", "chars", "collect", "to_string", "to_owned", "as_str", "as_ref", "clone", "iter", "copied", "cloned", "char_indices", "borrow"}
+    for fld in st[0]["fields"]:
+        e = fld["e"]
+        uses_text = any(x.get("k") == "Path" and x.get("res") == params[0] for x in walk(e, pats=False))
+        if not uses_text:
+            continue
+        chain = [m["name"] for m in walk(e, pats=False) if m.get("k") == "MethodCall"]
+        calls = [short(callee_of(c) or "") for c in walk(e, pats=False) if c.get("k") == "Call"]
+        extra = [m for m in chain if m not in allowed] + [c for c in calls if c not in ("from", "new", "into")]
+        key = f"Lexer.{fld['name']}"
+        if extra:
+            R.bad(key, f"Lexer::new stores the text through `{'.'.join(chain)}`: {extra} can change its length, so every reported raw offset (and any index into the caller's text) is shifted", loc(e))
+        else:
+            R.ok(key, detail=f"Lexer.{fld['name']} = text.{'.'.join(chain)}() (length-preserving)")
+
+
 @rule("C09", "C09.c.index-bases", floor=7)
 def c09c(F, R):
     """compact output is 1-based in line and columns, pretty output indexes the file 0-based and prints line+1, JSON is 0-based throughout"""
